@@ -19,6 +19,7 @@ import (
 	"google.golang.org/grpc"
 	"google.golang.org/grpc/credentials"
 
+	"github.com/theparanoids/ysshra/config"
 	"github.com/theparanoids/ysshra/crypki"
 	"github.com/theparanoids/ysshra/tlsutils"
 	"github.com/theparanoids/ysshra/verifharness/lib/caserver"
@@ -136,6 +137,8 @@ func main() {
 		go func() { defer lwg.Done(); stagedCA(r, dir, ca1, clientCert, clientKey) }()
 		lwg.Add(1)
 		go func() { defer lwg.Done(); lapsingServerCert(r, dir, ca1, clientCert, clientKey) }()
+		lwg.Add(1)
+		go func() { defer lwg.Done(); recoveringEndpoint(r, dir, ca1, ca2, clientCert, clientKey) }()
 		lwg.Add(1)
 		go func() { defer lwg.Done(); concurrentConstruction(r, dir, ca1, ca2, clientCert, clientKey) }()
 		ips := []string{"127.0.0.2", "127.0.0.3", "127.0.0.4"}
@@ -282,6 +285,36 @@ func twoSigners(r *ev.Run, dir string, caA, caB *caserver.CA, clientCert, client
 					return
 				}
 			}
+			// the same through the configuration map the gensign binary reads: a configuration that lists fewer CA files
+			// (or endpoints) than one decoded earlier in the process trusts what IT lists
+			signConf := func(bundles []string) (int, error) {
+				var bl []any
+				for _, b := range bundles {
+					bl = append(bl, b)
+				}
+				m := map[string]any{"tls_client_key_file": clientKey, "tls_client_cert_file": clientCert, "tls_ca_cert_files": bl, "crypki_endpoints": []any{ip}, "crypki_port": port, "retries": 1, "per_try_timeout": "10s"}
+				s, err := crypki.NewSignerWithGensignConf(config.GensignConfig{SignerConfig: m})
+				if err != nil {
+					return 0, err
+				}
+				ctx, cancel := context.WithTimeout(context.Background(), 30*time.Second)
+				defer cancel()
+				certs, _, serr := s.Sign(ctx, &proto.SSHCertificateSigningRequest{KeyMeta: &proto.KeyMeta{Identifier: "x"}, Principals: []string{"a"}, PublicKey: "k", Validity: 60})
+				return len(certs), serr
+			}
+			for round := 0; round < 2; round++ {
+				if n, err := signConf([]string{pb, pa}); err != nil || n != 1 {
+					r.Violation(c, "sign-fails-although-a-genuine-endpoint-is-configured:two-signers:configuration-map", fmt.Sprintf("signer from a map listing both CA files: certs=%d err=%v", n, err), rec)
+					return
+				}
+				before := len(servers[0].Calls())
+				n, err := signConf([]string{pb})
+				if err == nil || len(servers[0].Calls()) != before {
+					r.Violation(c, "rpc-handled-by-non-genuine-server:trusted-by-an-earlier-configuration-only", fmt.Sprintf("round %d: a signer from a map listing the other CA's file only, decoded after a map that listed both: Sign returned certs=%d err=%v and the server handled %d requests", round, n, err, len(servers[0].Calls())-before), rec)
+					return
+				}
+			}
+			r.Count("signers from a shorter configuration map decoded after a longer one: refused", 2)
 			r.Count("signers with another bundle used after a signer that trusted the server: refused", 3)
 			r.Nontrivial(fmt.Sprintf("two-signers:%v", proto12))
 		})
@@ -814,4 +847,109 @@ func lapsingServerCert(r *ev.Run, dir string, ca *caserver.CA, clientCert, clien
 		r.Count("calls after the first endpoint's certificate had run out: served by the next endpoint", 1)
 		r.Nontrivial("lapsing-server-cert")
 	})
+}
+
+// recoveringEndpoint: what a Signer learnt about an endpoint in an earlier call says nothing about the next call. The
+// first endpoint's address is held by a server with a foreign CA's certificate during the first call (which is served
+// by the second endpoint, the impostor handling nothing); then a genuine server takes over that address, and the next
+// call on the same Signer is served by it, being the first genuine endpoint of the list. The same with a list of one.
+func recoveringEndpoint(r *ev.Run, dir string, ca, foreign *caserver.CA, clientCert, clientKey string) {
+	for vi, single := range []bool{false, true} {
+		c := r.Case("recovering-endpoint", vi)
+		if c == nil {
+			continue
+		}
+		sub := filepath.Join(dir, fmt.Sprintf("recovering-%d", vi))
+		os.Mkdir(sub, 0o700)
+		caPath := filepath.Join(sub, "ca.pem")
+		os.WriteFile(caPath, ca.PEM, 0o600)
+		ips := []string{fmt.Sprintf("127.0.1.%d", 101+2*vi), fmt.Sprintf("127.0.1.%d", 102+2*vi)}
+		confs := []*tls.Config{
+			{Certificates: []tls.Certificate{foreign.Issue(caserver.Leaf{CN: "crypki", IPs: []string{ips[0]}})}, MinVersion: tls.VersionTLS12},
+			{Certificates: []tls.Certificate{ca.Issue(caserver.Leaf{CN: "crypki", IPs: []string{ips[1]}})}, MinVersion: tls.VersionTLS12},
+		}
+		servers, port, err := caserver.StartGroup(ips, confs)
+		if err != nil {
+			r.Count("recovering endpoint: cannot start servers (skipped)", 1)
+			continue
+		}
+		now64 := uint64(time.Now().Unix())
+		mkText := func(id string) string {
+			return string(ssh.MarshalAuthorizedKey(gen.MakeCert(gen.CertSpec{Key: gen.Pool()[0], KeyID: id, ValidAfter: now64 - 10, ValidBefore: now64 + 1000})))
+		}
+		reply := func(id string) caserver.Behaviour {
+			t := mkText(id)
+			return func(context.Context, *proto.SSHCertificateSigningRequest) (*proto.SSHKey, error) { return &proto.SSHKey{Key: t}, nil }
+		}
+		servers[0].Set(reply("from-impostor"))
+		servers[1].Set(reply("from-second"))
+		list := ips
+		if single {
+			list = ips[:1]
+		}
+		rec := map[string]any{"endpoints": list}
+		r.Eval(1)
+		stopped := false
+		var takeover *caserver.Server
+		r.Guard(c, "endpoint that becomes genuine between calls", rec, func() {
+			signer, err := crypki.NewSigner(crypki.SignerConfig{TLSClientKeyFile: clientKey, TLSClientCertFile: clientCert, TLSCACertFiles: []string{caPath}, CrypkiEndpoints: list, CrypkiPort: uint(port), Retries: 1, PerTryTimeout: 10 * time.Second})
+			if err != nil {
+				r.Violation(c, "signer-construction-fails", err.Error(), rec)
+				return
+			}
+			call := func() (string, error) {
+				ctx, cancel := context.WithTimeout(context.Background(), 60*time.Second)
+				defer cancel()
+				certs, _, serr := signer.Sign(ctx, &proto.SSHCertificateSigningRequest{KeyMeta: &proto.KeyMeta{Identifier: "x"}, Principals: []string{"a"}, PublicKey: "k", Validity: 60})
+				if serr != nil || len(certs) != 1 {
+					return "", fmt.Errorf("certs=%d err=%v", len(certs), serr)
+				}
+				return certs[0].(*ssh.Certificate).KeyId, nil
+			}
+			for k := 0; k < 2; k++ {
+				from, err := call()
+				if n := len(servers[0].Calls()); n > 0 || from == "from-impostor" {
+					r.Violation(c, "rpc-handled-by-non-genuine-server:recovering-endpoint", fmt.Sprintf("%d requests handled by the server with the foreign certificate (result from %q)", n, from), rec)
+					return
+				}
+				if single && err == nil {
+					r.Violation(c, "success-without-a-genuine-endpoint:recovering-endpoint", "from="+from, rec)
+					return
+				}
+				if !single && (err != nil || from != "from-second") {
+					r.Violation(c, "sign-fails-although-a-genuine-endpoint-is-configured:recovering-endpoint:before", fmt.Sprintf("from=%q err=%v", from, err), rec)
+					return
+				}
+			}
+			servers[0].Stop()
+			stopped = true
+			var serr error
+			for try := 0; try < 50; try++ { // the address is free as soon as the old listener is gone
+				takeover, serr = caserver.Start(ips[0], port, &tls.Config{Certificates: []tls.Certificate{ca.Issue(caserver.Leaf{CN: "crypki", IPs: []string{ips[0]}})}, MinVersion: tls.VersionTLS12})
+				if serr == nil {
+					break
+				}
+				time.Sleep(100 * time.Millisecond)
+			}
+			if serr != nil {
+				r.Count("recovering endpoint: the address could not be taken over (skipped)", 1)
+				return
+			}
+			takeover.Set(reply("from-first"))
+			from, err := call()
+			if err != nil || from != "from-first" {
+				r.Violation(c, "genuine-endpoint-not-used:after-an-earlier-failed-handshake", fmt.Sprintf("the first endpoint's address is now held by a server with a certificate of the configured CA; the call on the same Signer gave from=%q err=%v (%d requests reached it)", from, err, len(takeover.Calls())), rec)
+				return
+			}
+			r.Count("calls served by an endpoint that had failed the handshake in the previous call on the same Signer", 1)
+			r.Nontrivial(fmt.Sprintf("recovering-endpoint:%v", single))
+		})
+		if !stopped {
+			servers[0].Stop()
+		}
+		if takeover != nil {
+			takeover.Stop()
+		}
+		servers[1].Stop()
+	}
 }
